@@ -88,8 +88,29 @@ def run(ck):
             "unfinished body); HttpStateData::sendComplete/wroteLast set request_sent only when the whole request was handed to the socket")
     sic = facts.fn("HttpStateData::statusIfComplete")
     conn = facts.enum_with("COMPLETE_PERSISTENT_MSG")
-    ck.require_fact("B5.persistent-only-after-whole-request", ck.flow(sic), ev_return(E.m_const(conn["COMPLETE_PERSISTENT_MSG"])), E.m_is_mem("request_sent"), True,
-                    "return COMPLETE_PERSISTENT_MSG", why="(an early complete reply would return a server connection to the pool while the request body is still being relayed)")
+    sent = E.m_is_mem("request_sent")
+    sfl = ck.flow(sic)
+    why5 = "(an early complete reply would return a server connection to the pool while the request body is still being relayed)"
+    for st in ck.sites(sfl, ev_return(E.m_const(conn["COMPLETE_PERSISTENT_MSG"])), "return COMPLETE_PERSISTENT_MSG", 1):
+        if st.has(sent, True):
+            ck.ok("B5.persistent-only-after-whole-request", st.where(), "statusIfComplete: COMPLETE_PERSISTENT_MSG requires flags.request_sent")
+            continue
+        # the guard may sit in the callers instead: then *every* call of statusIfComplete() must be made with request_sent established
+        loose = []
+        ncalls = 0
+        for cname in sorted({c[0] for c in facts.callers("HttpStateData::statusIfComplete") if c[3] == "call" and "/tests/" not in c[1]}):
+            cf = facts.fn(cname)
+            cfl = ck.flow(cf)
+            for cs in cfl.find(ev_call("HttpStateData::statusIfComplete")):
+                ncalls += 1
+                if not cs.has(sent, True):
+                    loose.append(cs)
+        if ncalls and not loose:
+            ck.ok("B5.persistent-only-after-whole-request", st.where(), "statusIfComplete is only called with flags.request_sent established (%d call sites)" % ncalls)
+        else:
+            ck.violation("B5.persistent-only-after-whole-request", "B5.persistent-only-after-whole-request|HttpStateData::statusIfComplete|return_COMPLETE_PERSISTENT_MSG|needs:mem(request_sent)=T",
+                         st.where(), "HttpStateData::statusIfComplete: 'return COMPLETE_PERSISTENT_MSG' is reachable without flags.request_sent established, here or at %s %s"
+                         % (", ".join(c.where() for c in loose[:3]) or "any call site", why5), sfl.witness(st))
     ck.rule("B6 ConnStateData::handleRequestBodyData (identity bodies): the bytes offered to the body pipe are the front of inBuf (rawContent(), length()); inBuf is "
             "consumed by exactly the amount bodyPipe->putMoreData() accepted, and only that; bodyPipe is dropped only when the pipe says it needs no more data")
     hb = facts.fn("ConnStateData::handleRequestBodyData")
